@@ -10,6 +10,10 @@ import CifModel.Lemmas.NumbSyntax
 import CifModel.Lemmas.NumbRoundtrip
 import CifModel.Lemmas.NumbAutoinit
 import CifModel.Lemmas.NumbWindow
+import CifModel.Lemmas.NumbLimbPass
+import CifModel.Lemmas.NumbLimbRound
+import CifModel.Lemmas.NumbLimbLink
+import CifModel.Lemmas.NumbLimbCarry
 /-
   Property C10 — number text and double values convert with correct rounding.
 
@@ -296,7 +300,76 @@ theorem C10_autoinit_scale (val su : Bin) (rule : Nat) (msp : Int) (q : Bool) (t
       (Lemmas.NumbAutoinit.scaled_uniform su.m su.e _).1, (Lemmas.NumbAutoinit.scaled_uniform su.m su.e _).2]
     exact this
 
+/-! ### the base-10⁹ limb level (Model/NumbLimbs.lean) -/
+
+open Model.NumbLimbs Lemmas.NumbLimbPass in
+/-- **C10_limbs_shr_pass** (∀ well-formed work arrays, ∀ shift widths, both loop shapes — `extra = 0` to_double's
+    `for`, `extra = 1` to_digits' `do … while`): a right-shift pass as written (per-limb `dividend >> s`, remainder
+    carried into the next limb, continued behind `lsd` while the remainder is non-zero, `lsd`/`msd` re-tracked) divides
+    the number denoted by the array EXACTLY by `2^s` — the loop invariant "value of the limb array = the big number"
+    at pass granularity — keeps the array length, the limbs below 10⁹ and everything outside `msd..lsd` zero. -/
+theorem C10_limbs_shr_pass (extra s : Nat) (A A' : Arr) (h : shrPass extra s A = some A') (wf : WF A)
+    (hord : A.msd ≤ A.lsd + 1) :
+    natOfLimbs A'.digits * 2 ^ s = natOfLimbs A.digits ∧ A'.digits.length = A.digits.length ∧ WF A' :=
+  shrPass_spec extra s A A' h wf hord
+
+open Model.NumbLimbs Lemmas.NumbLimbPass in
+/-- **C10_limbs_shl_pass**: a left-shift pass as written (per-limb `(*dig << s) + carry`, `% BBASE`, `/ BBASE`, continued
+    above `msd` while the carry is non-zero) multiplies the number denoted by the array exactly by `2^s` and keeps it
+    well formed. -/
+theorem C10_limbs_shl_pass (s : Nat) (A A' : Arr) (h : shlPass s A = some A') (wf : WF A) (hord : A.msd ≤ A.lsd + 1)
+    (hinb : A.lsd < A.digits.length) :
+    natOfLimbs A'.digits = natOfLimbs A.digits * 2 ^ s ∧ A'.digits.length = A.digits.length ∧ WF A' :=
+  shlPass_spec s A A' h wf hord hinb
+
+open Model.NumbLimbs Lemmas.NumbLimbPass in
+/-- **C10_limbs_round_to_int**: `round_to_int`/`round_it`/`compare_half`/`is_zero` over the limbs behind the units limb
+    compute exactly the exact-arithmetic `roundToInt` of (number of the array) / (weight of the units limb) — hence, by
+    `C10_round_to_int_ties_even`, round-half-even of the scaled significand. -/
+theorem C10_limbs_round_to_int (ds : List Nat) (units lsd : Nat) (hs : Small ds)
+    (hz : ∀ j, lsd < j → ds.getD j 0 = 0) (hl : lsd < ds.length) (hu : units < ds.length) :
+    roundToIntLimbs ds (natOfLimbs (ds.take (units + 1))) units lsd =
+      roundToInt (natOfLimbs ds) (BBASE ^ (ds.length - (units + 1))) :=
+  Lemmas.NumbLimbRound.roundToIntLimbs_eq ds units lsd hs hz hl hu
+
+open Model.NumbLimbs Lemmas.NumbLimbCarry in
+/-- **C10_limbs_carry_loop** (∀ arrays, ∀ rounding positions `r`): the carry propagation of to_digits after rounding —
+    `for (work_dig = lsd; *work_dig >= BBASE; ) { carry = *(work_dig--) / BBASE; *work_dig += carry; }`, applied
+    "iteratively, if necessary" — ends on a limb below 10⁹ (or at index 0), and the number the digit generation will
+    print (limbs up to the stopping position as they are, the limbs behind it modulo 10⁹ — only their low nine digits
+    are printed) is exactly the number the limbs `0..r` denoted before the loop.  A round-up that ripples through a
+    full limb of nines into a third limb (1999999999.96 at scale 1) is covered; a single carry step is not enough for
+    the first conclusion. -/
+theorem C10_limbs_carry_loop (fuel : Nat) (ds : List Nat) (r : Nat) (hr : r < ds.length) (hf : r < fuel) :
+    printedAt (carryLoop fuel ds r).1 (carryLoop fuel ds r).2 r = natOfLimbs (ds.take (r + 1)) ∧
+    ((carryLoop fuel ds r).1.getD (carryLoop fuel ds r).2 0 < BBASE ∨ (carryLoop fuel ds r).2 = 0) ∧
+    (carryLoop fuel ds r).2 ≤ r ∧ (carryLoop fuel ds r).1.length = ds.length := by
+  obtain ⟨a1, a2, a3⟩ := carryLoop_printed fuel ds r r (Nat.le_refl _) hr
+  refine ⟨?_, carryLoop_stops fuel ds r hf, a3, a2⟩
+  rw [a1]
+  unfold printedAt printed
+  simp [natOfLimbs]
+
+/-- FULL refinement statements of the limb level.  NOT yet proved as a whole: the pass and rounding theorems above are
+    the loop invariants they rest on; what is missing is the index bookkeeping around them (reading the digits into the
+    array, `units_digit`/`msd` positions against the exact logarithms, the `lsd` quirks, to_digits' carry loop and digit
+    generation).  Until then both equalities are CHECKED ON EVERY REQUEST of the `todbl`/`todig` families: the driver
+    evaluates both levels and answers `LIMB-LEVEL … BIG-LEVEL …` (a disagreement with the real code) if they differ. -/
+def C10_limbs_refine_big_full : Prop :=
+  (∀ (ds : List Nat) (scale : Int) (d : Dbl), Model.NumbLimbs.toDoubleLimbs ds scale = some d → d = toDoubleBig ds scale) ∧
+  (∀ (m : Nat) (e scale : Int) (l : List Nat), -308 ≤ scale → scale ≤ 321 → Model.NumbLimbs.toDigitsLimbs m e scale = some l →
+    l = toDigitsBig m e scale)
+
 /-! ### non-vacuity and regression examples -/
+
+-- the carry loop on |1|999999999|10⁹| (1999999999.96 rounded at scale 1): two steps, stops at index 0 with limb 2
+example : Model.NumbLimbs.carryLoop 156 [1, 999999999, 1000000000] 2 = ([2, 1000000000, 1000000000], 0) := by decide +kernel
+-- limb level = exact level on concrete inputs (ties, a limb of nines with carry ripple, a value rounding to zero)
+example : Model.NumbLimbs.toDoubleLimbs [9,0,0,7,1,9,9,2,5,4,7,4,0,9,9,5] 0 = some (.fin false 4503599627370498 1) := by decide +kernel
+example : Model.NumbLimbs.toDigitsLimbs 8388607999999832 (-22) 1 = some [2,0,0,0,0,0,0,0,0,0,0] := by decide +kernel
+example : toDigitsBig 8388607999999832 (-22) 1 = [2,0,0,0,0,0,0,0,0,0,0] := by decide +kernel
+example : Model.NumbLimbs.toDigitsLimbs 7378697629483821 (-64) 2 = some [] := by decide +kernel
+
 
 -- the hypotheses of C10_to_double_big_partial are satisfiable, and the model returns the tie-to-even result (F14)
 example : toDoubleBig [9,0,0,7,1,9,9,2,5,4,7,4,0,9,9,5] 0 = .fin false 4503599627370498 1 := by decide +kernel
